@@ -93,7 +93,7 @@ pub fn one(target: &str, ctx: &mut Ctx, d: &[u8]) -> Result<(), String> {
             let op = ops[at(d, 0) as usize % ops.len()].clone();
             let c = c06::FeReplyCase {
                 op,
-                rv: ReplyVals { v: 0, v2: 0, bytes_seed: 0, with_file: true },
+                rv: ReplyVals { v: 0, v2: 0, bytes_seed: 0, with_file: true, split: 0 },
                 need_reply: at(d, 1) & 1 == 1,
                 muts: vec![c06::RMut::Junk(d.get(3..).unwrap_or(&[]).to_vec()), c06::RMut::Fds(at(d, 2) % 4)],
             };
@@ -178,7 +178,7 @@ pub fn seeds(target: &str) -> Vec<Vec<u8>> {
             for (i, op) in ops.iter().enumerate() {
                 for nr in [0u8, 1] {
                     let st = crate::props::c01::state_for(op, nr == 1, true);
-                    let rv = ReplyVals { v: 5, v2: 0, bytes_seed: 1, with_file: true };
+                    let rv = ReplyVals { v: 5, v2: 0, bytes_seed: 1, with_file: true, split: 0 };
                     let (bytes, nfds) = match crate::feops::reply_for(op, &st, &rv) {
                         Some((b, n, _)) => (b, n),
                         None => (spec::reply(op.code(), &spec::b_u64(0)), 0),
